@@ -45,7 +45,7 @@ def inline_reads(text, v, literal, neg_literal):
                 reads["inline.relements"] = ffi.typeof("enum e").relements["E"]
         except Exception as e:
             reads["inline.enum"] = exc_name(e)
-    if 0 <= v < 2 ** 31:
+    if 0 <= v < BIG:
         try:
             ffi = cffi.FFI()
             ffi.cdef(PREFIX + "typedef char T[%s];" % text)
@@ -72,6 +72,29 @@ def inline_reads(text, v, literal, neg_literal):
     return reads
 
 
+BIG = 2 ** 62      # array lengths up to here are asked of the back end (char/short items: no size overflow)
+
+
+def runtime_reads(f, tag, v, text, literal, reads):
+    """the array length as a TYPE STRING parsed at run time by the C parser (parse_c_type.c) and realized by
+    realize_c_type.c: typeof("char[<literal>]").length and sizeof, the value written in two radixes (chosen by the
+    value) and, for a literal, as the literal itself without suffix"""
+    forms = [("dec", "%d" % v), ("hex", "0x%x" % v), ("oct", "0%o" % v if v else "0")]
+    forms = [forms[v % 3], forms[(v // 3 + 1) % 3]] if forms[v % 3] != forms[(v // 3 + 1) % 3] else [forms[v % 3]]
+    if literal and not text.lower().startswith("0b"):
+        forms.append(("lit", text.rstrip("uUlL")))
+    for radix, form in forms:
+        for item, isz in (("char", 1), ("short", 2)):
+            key = "%s.typeof(%s[%s])" % (tag, item, radix)
+            try:
+                ct = f.typeof("%s[%s]" % (item, form))
+                reads[key + ".length"] = ct.length
+                sz = f.sizeof(ct)
+                reads[key + ".sizeof/%d" % isz] = sz // isz if sz % isz == 0 else ("EXC odd size %d" % sz)
+            except Exception as e:
+                reads[key] = exc_name(e)
+
+
 def ool_batch(cases, results, tag, api):
     """one out-of-line module for all accepted cases"""
     work = os.environ["VERIF_WORK"]
@@ -82,12 +105,13 @@ def ool_batch(cases, results, tag, api):
             continue
         if api and r.get("skip_api"):
             continue
-        lines.append("enum e%d { E%d = %s };" % (i, i, c["text"]))
-        want.append((i, "enum"))
-        if 0 < v < 2 ** 31 and isinstance(r["reads"].get("inline.length"), int):
+        if not api or c.get("api_ok"):
+            lines.append("enum e%d { E%d = %s };" % (i, i, c["text"]))
+            want.append((i, "enum"))
+        if 0 < v < (2 ** 40 if api else 2 ** 31) and isinstance(r["reads"].get("inline.length"), int):
             lines.append("typedef char T%d[%s];" % (i, c["text"]))
             want.append((i, "array"))
-        if c["literal"] and isinstance(r["reads"].get("inline.define"), int):
+        if c["literal"] and isinstance(r["reads"].get("inline.define"), int) and (not api or c.get("api_ok")):
             lines.append("#define D%d %s" % (i, c["text"]))
             want.append((i, "define"))
     if not lines:
@@ -114,7 +138,12 @@ def ool_batch(cases, results, tag, api):
             results[i]["reads"]["%s.module" % tag] = exc_name(e) + ": " + str(e)[:200]
         return
     f2 = mod.ffi
+    seen = set()
     for i, what in want:
+        v = results[i]["parser"]
+        if i not in seen and isinstance(v, int) and 0 <= v < BIG:
+            seen.add(i)
+            runtime_reads(f2, tag + ".rt", v, cases[i]["text"], cases[i]["literal"], results[i]["reads"])
         try:
             if what == "enum":
                 results[i]["reads"]["%s.integer_const(E)" % tag] = f2.integer_const("E%d" % i)
@@ -123,12 +152,17 @@ def ool_batch(cases, results, tag, api):
                     results[i]["reads"]["%s.lib.E" % tag] = getattr(mod.lib, "E%d" % i)
             elif what == "array":
                 results[i]["reads"]["%s.length" % tag] = f2.typeof("T%d" % i).length
+                results[i]["reads"]["%s.sizeof" % tag] = f2.sizeof("T%d" % i)
             else:
                 results[i]["reads"]["%s.define" % tag] = f2.integer_const("D%d" % i)
                 if api:
                     results[i]["reads"]["%s.lib.D" % tag] = getattr(mod.lib, "D%d" % i)
         except Exception as e:
             results[i]["reads"]["%s.%s" % (tag, what)] = exc_name(e)
+
+
+import _cffi_backend
+BARE = _cffi_backend.FFI()
 
 
 def main(payload):
@@ -141,6 +175,8 @@ def main(payload):
         r = dict(parser=v, reads={})
         if isinstance(v, int):
             r["reads"] = inline_reads(c["text"], v, c["literal"], c["neg_literal"])
+            if 0 <= v < BIG:
+                runtime_reads(BARE, "bare.rt", v, c["text"], c["literal"], r["reads"])
         results.append(r)
     for lo in range(0, len(cases), 400):
         ool_batch(cases[lo:lo + 400], results[lo:lo + 400], "ool%d" % lo, api=False)
@@ -152,7 +188,7 @@ def main(payload):
         for lo in range(0, len(cases), 300):
             sub, subr = cases[lo:lo + 300], results[lo:lo + 300]
             for c, r in zip(sub, subr):
-                r["skip_api"] = not c.get("api_ok", False)
+                r["skip_api"] = not (c.get("api_ok", False) or c.get("api_arr", False))
             ool_batch(sub, subr, "api%d" % lo, api=True)
             n += sum(1 for r in subr if not r["skip_api"])
         api_info = dict(cases=n)
